@@ -44,7 +44,7 @@ def enc(v):
         if math.isnan(v) or math.isinf(v):
             raise Unencodable("nan/inf")
         m = v * 8
-        if m != int(m) or abs(m) > 2**50:
+        if math.isinf(m) or m != int(m) or abs(m) > 2**50:
             raise Unencodable(f"float {v!r} is not a moderate multiple of 1/8")
         return {"f": int(m)}
     if isinstance(v, str):
@@ -132,6 +132,9 @@ def documented_family(e: BaseException):
     return None
 
 
+STR_FAILURES = []      # exceptions whose str() itself raised, from any outcome() call of this run
+
+
 def outcome(f, *a, **k):
     """Run f; return {'ok': value} or {'err': class name}."""
     try:
@@ -139,7 +142,10 @@ def outcome(f, *a, **k):
     except RecursionError:
         return {"err": "RecursionError"}
     except Exception as e:  # noqa: BLE001
-        return {"err": exc_name(e), "family": documented_family(e), "msg": str(e)[:120] if _safe_str(e) else "<str failed>"}
+        ok = _safe_str(e)
+        if not ok and len(STR_FAILURES) < 50:
+            STR_FAILURES.append({"error": exc_name(e), "args": repr(getattr(e, "args", None))[:200]})
+        return {"err": exc_name(e), "family": documented_family(e), "msg": str(e)[:120] if ok else "<str failed>"}
 
 
 def _safe_str(e):
